@@ -15,6 +15,10 @@ Definition used_here (cfg : config) (w : world) (a : action) (i : iobs) : list (
   | AReq r =>
       let before := uid_in (sess_of w (q_browser r)) in
       let after := uid_in (io_sess i) in
+      (match q_route r, parked_here (sess_of w (q_browser r)) (io_sess i) with
+       | ROtpLogin, Some U => [(U, aget f_password (values_of cfg r))]
+       | _, _ => []
+       end) ++
       if obytes_eq before after then [] else
       match after with
       | None => []
